@@ -241,7 +241,9 @@ PROPS = {
                    # the floating-point operations the translated GetNumber is interpreted with, against Go's own
                    {"name": "F64", "quick": 4000, "thorough": 400000},
                    # the accessors called from many goroutines at once, as the constructors of a page's items do
-                   {"name": "C17par", "quick": 40, "thorough": 2000, "workers": 4}],
+                   {"name": "C17par", "quick": 40, "thorough": 2000, "workers": 4},
+                   # documents as they arrive: fetched, decoded by jtp.Get, refused as a whole when a number does not fit
+                   {"name": "C03", "quick": 300, "thorough": 8000, "workers": 4}],
         "rule": "JSON documents with null/bool/number/string/array/object under keys k, m, z (numbers from two edge pools around 0, +-1, signed zeros, subnormals, 2^31, 2^32, 2^53, 2^63, 2^64 and their neighbouring doubles, zero fractions, cancelling exponents, over-long digit strings, random bit patterns and integers around powers of two; strings with control characters, timestamps, URLs, media types) x every accessor x present/absent keys; "
                 "half of the cases choose the accessor first and file under the key a value of the vocabulary it parses (RFC 3339 corners: leap second, offsets to +-24:00, lower-case t/z, fraction digits with '.' and ',', years 0000..10000, impossible dates, padding; well-formed timestamps and token/token media types drawn field by field; about 120 URLs that parse oddly; the four renderable media types and their near misses for GetMarkup), "
                 "then possibly damage it: C0/C1/ESC/bidi/zero-width characters at one to three places, only-removed characters, case changes, blank padding, tails up to 100 000 characters, doubling; strings spelled with \\u escapes, surrogate pairs and lone surrogates; natural-language maps (tags empty, und, upper case, malformed), @value objects, nesting to depth 100, arrays and objects of thousands of members; "
